@@ -3,7 +3,7 @@
 # verdict tokens (printed by the driver's classifier, computed by the extracted Coq checkers) that
 # mean "the property's own clause fails on this input" for each property
 FAIL = {
-    'C02': ('shape',),
+    'C02': ('shape', 'symbol'),
     'C01': ('sem', 'no-result'),
     'C08': ('lex', 'grammar', 'accept'),
     'C09': ('vars', 'free', 'leak'),
@@ -14,7 +14,7 @@ FAIL = {
     'C07': ('clause', 'no-result', 'rows', 'truevars'),
     'C20': ('clause', 'shape', 'no-result', 'rows'),
     'C10': ('header', 'rows', 'truevars', 'no-result', 'accept', 'panic'),
-    'C11': ('header', 'rows', 'order', 'roundtrip', 'accept', 'byname', 'panic', 'no-result'),
+    'C11': ('header', 'rows', 'order', 'roundtrip', 'accept', 'byname', 'panic', 'no-result', 'symbol', 'sem', 'shape'),
     'C12': ('panic',),
     'C19': ('member', 'panic'),
     'C15': ('models', 'illformed', 'panic'),
@@ -22,7 +22,7 @@ FAIL = {
     'C17': ('hints', 'illformed', 'panic'),
     'C18': ('output', 'panic'),
     'C14': ('nodes', 'edges', 'readback', 'graph', 'panic'),
-    'C13': ('history', 'handle', 'sharing', 'result', 'no-result', 'shape'),
+    'C13': ('history', 'handle', 'sharing', 'result', 'no-result', 'shape', 'symbol'),
 }
 
 BDD_RULE = {
@@ -50,13 +50,17 @@ TEXT_RULE = {
     'evalq': 'language-level quantifiers: all 85 variable lists of length <=3 over four names (order, repetition, names absent from the body) x {exists, forall} x 9 bodies, each conjoined with its body; a third also bare, inside an lfp and a gfp, and under an API ordering with gaps',
     'evalwide': 'sizes beyond the small spaces: conjunction, disjunction, xor chains, quantifier lists, a De Morgan equivalence, reversed first-appearance order and a 2n-deep nesting over n = 32, 33, 64, 65, 70, 129 variables (thorough up to 257); counting over lists of 8, 11, 14 operands; seeded random fixed-point-free formulas of depth 4 over 20 names',
     'evalord': 'API orderings with gaps: 8 formulas x every injective assignment of ids 0..5 to every subset of <=3 of the names a,b,c,d (685 orderings), incl. formulas with up to five unlisted variables; result, vars, free_vars, names compared, and the answer is compared BY NAME with the default-order answer',
+    'evalshadow': 'systematic shadowing: 7 outer binders (exists/forall/lfp/gfp on a, two-name lists, none) x 6 inner binders on the same name x 8 layouts (inner scope closed by a bracket, a list comma or an if-branch, with uses of the name before, after and outside; triple nesting; binders on absent and binder-only names), default order and an API ordering',
+    'sym': 'the NamedSymbol contract the model rests on, all 256 pairs over ids {0,1,2,7} x names {a, b, empty, non-ASCII}: == and cmp / partial_cmp decided by the id alone, equal symbols hash alike (std hasher and the FxHash of a node), nodes over equal symbols are equal, into usize is the id, Display is the name',
+    'evalx': 'two separately parsed formulas (two environments) combined by and / or / eq / xor / implies / ite of either environment: 12 fixed pairs and seeded random pairs - the same structure under two spellings of the same ids (p,q,x / req,ack,busy / x,p,q) or unrelated formulas over overlapping ids; seven result diagrams compared',
+    'evalid': 'API orderings with arbitrary ids: 8 formula templates x 6 id layouts with one id SOLVED so that the two children of one node are different diagrams with the same FxHash (the words fed to the hasher are recorded and the FxHasher replayed; kept only when the real get_hash confirms the collision; about 30 orderings, each also inside a conjunction and under a negation), plus seeded random formulas over 6 names under random listings with ids near 0, near usize::MAX, powers of two and random 64-bit values; the evaluated diagram and its conversion to BDD<usize> are compared in rank space with the model under the order-isomorphic small ids, and BY NAME with the default-order answer',
     'evalc': 'counting grid: 5 comparisons x 10 constants (0..4, 2^63-2 .. 2^63, 2^64-2, 2^64-1) x 6 operand lists, 5x5 list-vs-list grid; plus seeded random formulas containing a counting comparison',
     'evalfp': '23 hand-picked fixed-point formulas (identity, constants, divergent negation, chains through quantifiers, nested/mixed lfp-gfp, shadowing by quantifier and by inner fixed point, counting, ite); plus seeded random formulas containing lfp/gfp over 3 names, 3/4 monotone by construction, 1/4 arbitrary',
 }
 
 
 def text(parts, exhaustive=True):
-    ops = {'tok': ['tok'], 'parse': ['parse'], 'eval': ['eval'], 'evalc': ['eval'], 'evalfp': ['eval'], 'evalord': ['eval'], 'evalwide': ['eval'], 'evalq': ['eval']}
+    ops = {'tok': ['tok'], 'parse': ['parse'], 'eval': ['eval'], 'evalc': ['eval'], 'evalfp': ['eval'], 'evalord': ['eval'], 'evalwide': ['eval'], 'evalq': ['eval'], 'evalshadow': ['eval'], 'sym': ['sym'], 'evalx': ['evalx'], 'evalid': ['evalid']}
     return dict(suite='text', parts=parts, profile='release', exhaustive=exhaustive,
                 corpus_ops=sorted(set(o for p in parts for o in ops[p])),
                 rule='; '.join('%s: %s' % (p, TEXT_RULE[p]) for p in parts))
@@ -66,6 +70,9 @@ CLI_RULE = {
     'grid': 'option grid on 40 fixed formulas (every construct): all 15 accepted spellings of -f, the three input channels (stdin, file, --evaluate), -c {t,f,True,false} x -m, -m alone and with -f t, -b {1,2,3}; every run asks for -t -v -r together; header, row set, -v lines and -r list are compared',
     'order': '12 formulas over <=3 names x all 65 sequences of distinct names from {a,b,c,u} (permutations, subsets, supersets with the unused name u before/between/after) as ordering file, plus files with duplicates, punctuation, keywords, numbers, comments, empty; every run also feeds its own -r output back with -o and requires the identical table (round trip)',
     'size': 'size boundaries: conjunction / disjunction tables with 63, 64, 65, 66, 70 and 130 columns x filters x -m; evaluations that build more than a thousand table entries (pairs (a_i & b_i) under an order that separates the a from the b) and end in a constant or a small diagram, with -b absent, 1, 2, 3',
+    'shadow': 'the 350 systematic shadowing formulas of S-text/evalshadow through the binary (header = free variables in order, rows) x filters x channels',
+    'names': 'variable names of 20, 23, 24, 25, 26, 32, 64 and 200 characters in 3 formulas x 4 ordering files that do not list them last (and none), each with the -r / -o round trip',
+    'env': 'hidden inputs: every environment variable the binary announces in --help ([env: NAME=]) or mentions in its sources (env = "NAME", env::var("NAME")) is exported with the values True/False/Any/t/f/0/1 around 12 grid formulas x 6 (-f, -c) combinations; the output must be what the model prints for the command line alone (no such variable exists on the unchanged tree: 0 cases)',
     'random': 'seeded random formulas (monotone-by-construction fixed points, <=6 names) x random option sets (-f, -c, -m, -b, channel) x random ordering files (unused names, duplicates, separators), half of those with round trip',
     'robustbin': 'the binary on seeded arbitrary bytes as formula and as ordering file (raw bytes incl. invalid UTF-8, token soups with huge / non-ASCII numerals, NUL, stray quotes and braces, mutated formulas, nesting up to 200, long chains) x option sets; exit class and absence of a panic message',
     'robustlib': 'in-process tokenize/new/eval plus both DOT renderers under all filters, retain, model and to_free_index on every node of answer and model, under catch_unwind, on seeded arbitrary bytes (same generator); Ok/Err class compared with the model',
@@ -94,20 +101,20 @@ def gen(parts):
 
 
 PROPS = {
-    'C02': dict(suites=[bdd(['conn', 'quant', 'count', 'fp', 'model', 'retain', 'clean', 'mixed', 'wide'])]),
-    'C01': dict(suites=[text(['tok', 'parse', 'eval', 'evalfp', 'evalwide', 'evalq'])]),
+    'C02': dict(suites=[bdd(['conn', 'quant', 'count', 'fp', 'model', 'retain', 'clean', 'mixed', 'wide']), text(['sym', 'evalx', 'evalid'], exhaustive=False)]),
+    'C01': dict(suites=[text(['tok', 'parse', 'eval', 'evalfp', 'evalwide', 'evalq', 'evalshadow'])]),
     'C08': dict(suites=[text(['tok', 'parse'])]),
-    'C09': dict(suites=[text(['eval', 'evalwide'])]),
-    'C10': dict(suites=[cli(['grid', 'order', 'size', 'random'])]),
-    'C11': dict(suites=[cli(['order', 'random']), text(['evalord'])]),
+    'C09': dict(suites=[text(['eval', 'evalwide', 'evalshadow'])]),
+    'C10': dict(suites=[cli(['grid', 'order', 'size', 'shadow', 'names', 'env', 'random'])]),
+    'C11': dict(suites=[cli(['order', 'names', 'random']), text(['evalord', 'evalid', 'sym'])]),
     'C12': dict(suites=[cli(['robustlib', 'robustbin', 'grid', 'size'])]),
     'C19': dict(suites=[dict(suite='set', parts=[], profile='release', exhaustive=True,
                              rule='complete BFS over all 256 reachable pairs of reference states of two 2-bit sets sharing an environment x all 32 next operations (insert, contains per element; union, intersect, complement for all four operand pairs incl. the same set twice; empty; universe), each followed by all 8 membership queries twice; plus seeded random histories of <=25 operations over 1..5 bits ending in a full membership sweep; answers and both final diagrams are compared')]),
     'C13': dict(lint='c13', suites=[dict(suite='hist', parts=[], profile='release', exhaustive=True,
-                             rule='hist: all 1884 operation sequences of length <=3 over a 12-operation alphabet acting on the two latest handles (var, not, and, or, xor, exists, model, retain, mk_choice, clean, counting) in one environment, plus seeded random histories (100 x 100 operations; thorough 2000 x 300) over all public operations incl. fp, with operands drawn from recent and from old handles; after EVERY step: the step re-run in a fresh environment gives the identical result, every earlier handle re-serialises to its recorded text, every node reachable from every handle is pointer-identical to the unique table entry for its structure, both leaves present, every key equals its value. heap: random sequences of direct mk_choice / mk_const calls on earlier results: pointer-equality pattern and table size against the Heap model'),
-                        bdd(['mixed'], exhaustive=False)]),
+                             rule='hist: all 1884 operation sequences of length <=3 over a 12-operation alphabet acting on the two latest handles (var, not, and, or, xor, exists, model, retain, mk_choice, clean, counting) in one environment, plus seeded random histories (100 x 100 operations; thorough 2000 x 300) over all public operations incl. fp, with operands drawn from recent and from old handles; after EVERY step: the step re-run in a fresh environment gives the identical result, every earlier handle re-serialises to its recorded text, every node reachable from every handle is pointer-identical to the unique table entry for its structure, both leaves present, every key equals its value. heap: random sequences of direct mk_choice / mk_const calls on earlier results: pointer-equality pattern and table size against the Heap model. histf: 2-6 formula texts evaluated one after the other in ONE environment through ParsedFormula::new_with_env, the same structure recurring under four spellings of the same ids: each result equals the fresh-environment evaluation and the model value, old results keep their structure, equal results are one pointer, table invariants after every step. All table sweeps also require one entry per (id, child addresses)'),
+                        bdd(['mixed'], exhaustive=False), text(['sym'], exhaustive=False)]),
     'C14': dict(lint='c14', suites=[dict(suite='dot', parts=[], profile='release', exhaustive=True,
-                             rule='dotbdd: BDDGraph DOT text of all 256 functions over two variable triples x filters Any/True/False and of a stride of the 65536 four-variable functions (thorough: all), parsed back: every node id is replaced by the structure it roots through its T/F edges (a missing edge leads to the leaf the filter hides), node set and edge set compared with dot_nodes / dot_edges of the model, plus flags for an id declared twice, two ids rooting the same structure, an undeclared edge end; dotnamed: the same for evaluated random formulas over names needing escaping (quote, non-ASCII); dottree: SymbolicParseTree DOT text of 18 hand-picked formulas (every node kind, repeated sub-terms) and random formulas, read back as terms from labels and ordered edge labels: node set, edge set and the term rooted at the unique parent-less node compared with the parsed tree'),
+                             rule='dotbdd: BDDGraph DOT text of all 256 functions over two variable triples x filters Any/True/False and of a stride of the 65536 four-variable functions (thorough: all), parsed back: every node id is replaced by the structure it roots through its T/F edges (a missing edge leads to the leaf the filter hides), node set and edge set compared with dot_nodes / dot_edges of the model, plus flags for an id declared twice, two ids rooting the same structure, an undeclared edge end; dotnamed: the same for evaluated random formulas over names needing escaping (quote, non-ASCII); dottree: SymbolicParseTree DOT text of 18 hand-picked formulas (every node kind, repeated sub-terms), 42 size cases (binder lists and counting lists of 6, 7, 8, 12, 33, 70 names, names of 20-41 characters) and random formulas, read back as terms from labels and ordered edge labels: node set, edge set and the term rooted at the unique parent-less node compared with the parsed tree'),
                         dict(suite='dot', parts=['files'], profile='release', bins='debug', exhaustive=False,
                              rule='files: the rsbdd binary with --dot FILE --parsetree FILE (and --filter) on the 40 grid formulas x 3 filters and seeded random formulas over names needing escaping; both files read back and compared like dotnamed / dottree')]),
     'C15': dict(suites=[gen(['queens'])]),
@@ -117,9 +124,9 @@ PROPS = {
     'C03': dict(suites=[bdd(['conn', 'wide'])]),
     'C04': dict(suites=[bdd(['quant', 'wide']), text(['evalq', 'evalfp'])]),
     'C05': dict(suites=[bdd(['count', 'wide']), text(['evalc'])]),
-    'C06': dict(suites=[bdd(['fp']), text(['evalfp'], exhaustive=False)]),
+    'C06': dict(suites=[bdd(['fp']), text(['evalfp', 'evalshadow'], exhaustive=False)]),
     'C07': dict(suites=[bdd(['model', 'wide']), cli(['grid'])]),
-    'C20': dict(suites=[bdd(['retain', 'wide']), cli(['grid'])]),
+    'C20': dict(suites=[bdd(['retain', 'wide']), cli(['grid', 'env'])]),
 }
 
 HOOK_COMMITS = ['d9157ce']
